@@ -282,16 +282,98 @@ Definition gff_ft_ok (l : str) : bool :=
 
 Definition GFF_FASTA : str := bs "##FASTA"%bs.
 Definition is_blank (l : str) : bool := match strip l with [] => true | _ => false end.
-(* read_fts_gff consumes the lines up to and including the first '##FASTA' line (gff.py:52-58) *)
-Fixpoint gff_skip (ls : list str) : res (list str) :=
+(* reader options of read_gff / read_fts_gff (gff.py:38-66): filt_fast, filt, default_ftype (comments=[] only collects) *)
+Record gopts := mk_gopts { o_filt_fast : option str; o_filt : list str; o_default : option str }.
+Definition no_opts : gopts := mk_gopts None [] None.
+(* filt_fast is not None and filt_fast.lower() not in line.lower() *)
+Definition filt_fast_skips (o : gopts) (l : str) : bool :=
+  match o_filt_fast o with Some ff => negb (is_substring (lower ff) (lower l)) | None => false end.
+(* a feature line under the options: the 9 columns are unpacked first, then 'if filt and type_ not in filt: continue'
+   comes BEFORE the coordinates are parsed (gff.py:61-66); a type column containing '%' is not modelled with filt *)
+Definition gff_ft_ok_opt (o : gopts) (l : str) : bool :=
+  match split_on TAB (strip l) with
+  | [_; _; ty; start; stop; score; strand; phase; attrs] =>
+      let ty' := if str_eqb ty DOT then o_default o else Some ty in
+      let filtered := match o_filt o with
+                      | [] => false
+                      | fl => negb (mem PCT ty)
+                              && negb (match ty' with Some t => existsb (str_eqb t) fl | None => false end)
+                      end in
+      if filtered then true
+      else match py_int start, py_int stop with
+           | Some a, Some b => Z.ltb (a - 1) b && strand_ok strand && num_or_dot score && num_or_dot phase && attrs_ok attrs
+           | _, _ => false
+           end
+  | _ => false
+  end.
+(* the ID attribute of a feature line (the last 'ID=' piece wins, as in a dict); raw text, not unquoted *)
+Fixpoint attr_id_pieces (ps : list str) (acc : option str) : option str :=
+  match ps with
+  | [] => acc
+  | kv :: r =>
+      let kv' := strip kv in
+      let k := strip (takewhile (fun c => negb (byte_eqb c "="%byte)) kv') in
+      let v := strip (match dropwhile (fun c => negb (byte_eqb c "="%byte)) kv' with _ :: x => x | [] => [] end) in
+      attr_id_pieces r (if str_eqb k (bs "ID"%bs) then Some v else acc)
+  end.
+Definition attr_id (attrs : str) : option str :=
+  if str_eqb attrs DOT then None else attr_id_pieces (split_on ";"%byte attrs) None.
+(* id_ = (attrs['ID'], type_, seqid) if 'ID' in attrs else None, and the strand column (gff.py:80-84) *)
+Definition ft_key : Type := (str * option str * str)%type.
+Definition gff_ft_key (o : gopts) (l : str) : option ft_key * str :=
+  match split_on TAB (strip l) with
+  | [seqid; _; ty; _; _; _; strand; _; attrs] =>
+      (match attr_id attrs with
+       | Some v => Some (v, (if str_eqb ty DOT then o_default o else Some ty), seqid)
+       | None => None
+       end, strand)
+  | _ => (None, [])
+  end.
+Definition ft_key_eqb (a b : ft_key) : bool :=
+  match a, b with
+  | (v1, t1, s1), (v2, t2, s2) =>
+      str_eqb v1 v2 && str_eqb s1 s2
+      && match t1, t2 with Some x, Some y => str_eqb x y | None, None => true | _, _ => false end
+  end.
+(* is this feature line dropped by 'if filt and type_ not in filt: continue' ? *)
+Definition gff_filtered (o : gopts) (l : str) : bool :=
+  match split_on TAB (strip l) with
+  | [_; _; ty; _; _; _; _; _; _] =>
+      let ty' := if str_eqb ty DOT then o_default o else Some ty in
+      match o_filt o with
+      | [] => false
+      | fl => negb (mem PCT ty) && negb (match ty' with Some t => existsb (str_eqb t) fl | None => false end)
+      end
+  | _ => false
+  end.
+(* read_fts_gff consumes the lines up to and including the first '##FASTA' line (gff.py:52-98). [last] is lastid together
+   with the strand of the feature it belongs to: consecutive lines with the same (ID, type, seqid) are merged into one
+   feature, and LocationTuple rejects mixed strands with a ValueError (fts.py:181-184) *)
+Fixpoint gff_skip_opt (o : gopts) (last : option (ft_key * str)) (ls : list str) : res (list str) :=
   match ls with
   | [] => Ok []
   | l :: rest =>
       if startswith GFF_FASTA l then Ok rest
-      else if head_is HASH l || is_blank l then gff_skip rest
-      else if gff_ft_ok l then gff_skip rest
+      else if filt_fast_skips o l then gff_skip_opt o last rest
+      else if head_is HASH l || is_blank l then gff_skip_opt o last rest
+      else if gff_ft_ok_opt o l then
+        if gff_filtered o l then gff_skip_opt o last rest
+        else
+          match gff_ft_key o l with
+          | (Some k, st) =>
+              match last with
+              | Some (k0, st0) =>
+                  if ft_key_eqb k k0 then (if str_eqb st st0 then gff_skip_opt o last rest else Err E_Value)
+                  else gff_skip_opt o (Some (k, st)) rest
+              | None => gff_skip_opt o (Some (k, st)) rest
+              end
+          | (None, _) => gff_skip_opt o None rest
+          end
       else Err E_Value
   end.
+Definition gff_skip (ls : list str) : res (list str) := gff_skip_opt no_opts None ls.
+Definition read_gff_lines_opt (o : gopts) (ls : list str) : res (list bseq) :=
+  bind (gff_skip_opt o None ls) read_fasta_lines.
 Definition read_gff_lines (ls : list str) : res (list bseq) :=
   bind (gff_skip ls) read_fasta_lines.
 (* write_fts_gff of the feature lines, '##FASTA', then the nested write(seqs, f, fmt='fasta') *)
@@ -448,6 +530,13 @@ Definition read_content (f : fmt) (c : content) : res (list bseq) :=
         | Sjson, CTree [t] => dec_basket t
         | _, _ => Err E_Value             (* json: empty input or extra data *)
         end) (fun b => Ok (map (set_fmt f) b)).
+
+(* read(text, 'gff', filt_fast=.., filt=.., default_ftype=..) *)
+Definition read_gff_opt (o : gopts) (c : content) : res (list bseq) :=
+  match c with
+  | CText t => bind (read_gff_lines_opt o (text_lines t)) (fun b => Ok (map (set_fmt Gff) b))
+  | CTree _ => Err E_Value
+  end.
 
 (* ---------------------------------------------------------------- equality of the visible object state *)
 Definition opt_eqb (a b : option str) : bool :=
@@ -672,3 +761,25 @@ Definition run_C01 (op fmtn : N) (xs ys : list input_seq) (fl : list input_ft) (
                 | 3%N => write_read f fts (build xs)
                 | _ => read_once f t
                 end)].
+
+(* GFF reader options: mode 0 = write the basket (with features) and read it back under the options;
+   mode 1 = read a literal text under the options *)
+Definition wf_text_gff_opt (o : gopts) (t : str) : bool :=
+  forallb text_char_ok t
+  && match read_gff_opt o (CText t) with
+     | Ok b => match b with [] => false | _ => true end && forallb (rec_ok Gff) b
+     | Err _ => false
+     end.
+Definition opt_printable (o : gopts) : bool :=
+  match o_filt_fast o with Some x => forallb is_print_or_tab x | None => true end.
+Definition run_C01_opt (mode : N) (ff : option str) (filt : list str) (dflt : option str)
+                       (xs : list input_seq) (fl : list input_ft) (t : str) : val :=
+  let o := mk_gopts ff filt dflt in
+  let fts := build_fts fl in
+  match mode with
+  | 0%N => VL [VB (wf_C01 0 Gff xs [] fts [] && opt_printable o);
+               show_res (bind (write_w_fts Gff fts (build xs)) (fun t1 =>
+                         bind (read_gff_opt o t1) (fun o1 => Ok (VL [show_content t1; show_basket o1]))))]
+  | _ => VL [VB (wf_text_gff_opt o t && opt_printable o);
+             show_res (bind (read_gff_opt o (CText t)) (fun o1 => Ok (show_basket o1)))]
+  end.
